@@ -6410,7 +6410,7 @@ static PyObject* gesvd(PyObject *self, PyObject *args, PyObject *kwrds)
 static char doc_gesdd[] =
     "Singular value decomposition of a real or complex matrix\n"
     "(divide-and-conquer driver).\n\n"
-    "gesdd(A, S, jobz='N', U=None, V=None, m=A.size[0], n=A.size[1], \n"
+    "gesdd(A, S, jobz='N', U=None, Vt=None, m=A.size[0], n=A.size[1], \n"
     "      ldA=max(1,A.size[0]), ldU=None, ldVt=None, offsetA=0, \n"
     "      offsetS=0, offsetU=0, offsetVt=0)\n\n"
     "PURPOSE\n"
@@ -6814,7 +6814,7 @@ static char doc_gges[] =
     "sdim = gges(A, B, a=None, b=None, Vl=None, Vr=None, select=None,\n"
     "            n=A.size[0], ldA=max(1,A.size[0]),\n"
     "            ldB=max(1,B.size[0]), ldVl=max(1,Vl.size[0]),\n"
-    "            ldVr=max(1,Vr.size[0]), offsetA=0, offestB=0, \n"
+    "            ldVr=max(1,Vr.size[0]), offsetA=0, offsetB=0, \n"
     "            offseta=0, offsetb=0, offsetVl=0, offsetVr=0)\n\n"
     "PURPOSE\n"
     "Computes the real generalized Schur form A = Vl * S * Vr^T, \n"
